@@ -151,7 +151,24 @@ def _render_handle(pkg):
 def _init_handle(pkg):
     """InitCommand.handle with the parsing helpers it may have been split into put back; self.option / self.validate are the
     primitives the rules below speak about and stay calls"""
-    return pkg.expanded("InitCommand", "handle", keep=("option", "validate"))
+    cache = pkg.__dict__.setdefault("_init_handle", {})
+    if "fn" not in cache:
+        import copy
+        from ..normalize import expand_kwargs_dicts
+        fn = copy.deepcopy(pkg.expanded("InitCommand", "handle", keep=("option", "validate")))
+        try:
+            expand_kwargs_dicts(fn)           # BaseConfiguration(name, **settings) with `settings` a display of the function
+        except RecursionError:
+            pass
+        cache["fn"] = fn
+    return cache["fn"]
+
+
+def _example_handle(pkg):
+    """ExampleCommand.handle with the helpers of the class / the module it may have been split into put back (one option value composed
+    by a helper method, ..); the primitives of the command framework (self.option / choice / confirm / call / line) are not methods of
+    the package and stay calls"""
+    return pkg.expanded("ExampleCommand", "handle", keep=("option", "choice", "confirm", "call", "line", "argument"))
 
 
 def _alias_closure(fn, name):
@@ -251,7 +268,7 @@ def _example_flow(pkg):
     from ..valueflow import Flow
     cache = pkg.__dict__.setdefault("_example_flow", {})
     if "fl" not in cache:
-        cache["fl"] = Flow(pkg.method("ExampleCommand", "handle"), EXAMPLE)
+        cache["fl"] = Flow(_example_handle(pkg), EXAMPLE)
     return cache["fl"]
 
 
@@ -540,8 +557,22 @@ def _r12(ctx, pkg):
 
     reached = {}       # path -> set of (callee, slot)
     strays = {}        # path -> [unknown call it is handed to]
-    stmts = [n for n in ast.walk(rfn) if isinstance(n, (ast.Assign, ast.AugAssign, ast.Expr, ast.For, ast.With, ast.Return))]
-    stmts.sort(key=lambda n: (n.lineno, n.col_offset))
+    stmts = []
+
+    def collect(body):
+        """statements in execution (source) order -- by position in the statement lists, not by line number"""
+        for st in body:
+            if isinstance(st, (ast.FunctionDef, ast.AsyncFunctionDef, ast.ClassDef)):
+                continue
+            if isinstance(st, (ast.Assign, ast.AugAssign, ast.Expr, ast.For, ast.With, ast.Return)):
+                stmts.append(st)
+            for fld in ("body", "orelse", "finalbody"):
+                b = getattr(st, fld, None)
+                if isinstance(b, list) and b and isinstance(b[0], ast.stmt):
+                    collect(b)
+            for hd in getattr(st, "handlers", []) or []:
+                collect(hd.body)
+    collect(rfn.body)
     for n in stmts:
         # sinks: calls anywhere inside the statement's own expressions
         exprs = []
@@ -669,13 +700,19 @@ def _r11(ctx, pkg):
             continue
         a = sorted(cands, key=lambda x: x.lineno)[-1]
         n += 1
-        st, why = _list_parse(a.value, ci.node)
+        val = a.value
+        for _ in range(2):            # `items = [..]; option = items`: a local bound once is what it was bound to
+            if isinstance(val, ast.Name):
+                src = [x for x in ast.walk(h) if isinstance(x, ast.Assign) and len(x.targets) == 1 and isinstance(x.targets[0], ast.Name) and x.targets[0].id == val.id]
+                if len(src) == 1 and val.id != local:
+                    val = src[0].value
+        st, why = _list_parse(val, ci.node)
         if st == "unknown":
             ctx.unrec("R11", f"--{opt}: list parse", (INIT, a.lineno), f"cannot tell whether every item survives: {why}")
         else:
             ctx.check(st == "ok", "R11", f"--{opt}: list parse", (INIT, a.lineno), why if st == "ok" else
                       f"the items of --{opt} are de-duplicated or re-ordered ({why}): `--network-files=a.kida,b.kida --file-formats=kida,kida` is written as formats = ['kida'] and "
-                      "the render command rejects (or mis-pairs) the configuration", expected="[x.strip() for x in value.split(',') if x]", found=ast.unparse(a.value)[:100])
+                      "the render command rejects (or mis-pairs) the configuration", expected="[x.strip() for x in value.split(',') if x]", found=ast.unparse(val)[:100])
     ctx.floor("R11", "list options parsed", n, 9)
 
 
@@ -850,7 +887,7 @@ def _r9(ctx, pkg):
                 var[t.id] = p
             continue
         p = path_of(t) if isinstance(t, ast.Subscript) else None
-        if p is None or not p.startswith(USER_PATHS) or p == "chemistry.symbol":
+        if p is None or not p.startswith(USER_PATHS) or p == "chemistry.symbol" or p.startswith("chemistry.symbol."):
             continue
         n += 1
         state, why = _whole(st.value, mod)
@@ -967,7 +1004,7 @@ def _r2(ctx, pkg):
     else:
         c = calls[0]
         given = params[:len(c.args)] + [k.arg for k in c.keywords]
-        unknown = [k.arg for k in c.keywords if k.arg not in params]
+        unknown = [k.arg for k in c.keywords if k.arg is not None and k.arg not in params]        # (`**table`: decided below)
         missing = [p for p in params if p not in given]
         ctx.check(not unknown, "R2", "InitCommand passes only known keywords", (INIT, c.lineno), "every keyword is a parameter of BaseConfiguration", found=str(unknown))
         if missing and (any(k.arg is None for k in c.keywords) or any(isinstance(a, ast.Starred) for a in c.args)):
@@ -977,8 +1014,8 @@ def _r2(ctx, pkg):
         # each keyword receives the local of the matching option (name agreement, e.g. required_species=extra_species)
         org = _option_origins(h)
         for k in c.keywords:
-            if k.arg == "species_kwargs":
-                continue        # a dictionary of three option values: its keys are decided just below
+            if k.arg == "species_kwargs" or k.arg is None:
+                continue        # a dictionary of three option values: its keys are decided just below;  `**table`: not read here
             exp = KW_OPTION.get(k.arg)
             got = org.get(k.value.id) if isinstance(k.value, ast.Name) else _origin_of(k.value, org)
             if exp is None:
@@ -1021,10 +1058,11 @@ def _r2(ctx, pkg):
 
 
 def _r3(ctx, pkg):
-    h = pkg.method("ExampleCommand", "handle")
+    h = _example_handle(pkg)
     ctx.saw(EXAMPLE, "ExampleCommand.handle")
     modvar = next((n.targets[0].id for n in ast.walk(h) if isinstance(n, ast.Assign) and isinstance(n.targets[0], ast.Name) and "import_module" in ast.unparse(n.value)), "examplemod")
-    attrs = sorted({n.attr for n in ast.walk(h) if isinstance(n, ast.Attribute) and isinstance(n.value, ast.Name) and n.value.id == modvar})
+    attrs = sorted({n.attr for n in ast.walk(h) if isinstance(n, ast.Attribute) and isinstance(n.value, ast.Name) and n.value.id == modvar
+                    and not (n.attr.startswith("__") and n.attr.endswith("__"))})          # (__name__, __file__ .. every module has)
     mods = [f for f in pkg.files if f.startswith("naunet/examples/") and f.endswith("__init__.py") and f != "naunet/examples/__init__.py"]
     ctx.floor("R3", "example modules", len(mods), 6)
     for f in mods:
@@ -1109,7 +1147,7 @@ def _seps_reader(h, opt, org, pkg=None):
         scopes = [n for n in _in_order(h) if isinstance(n, (ast.Assign, ast.For)) and at.get(id(n)) == opt]
     for sc in scopes:
         for c in ast.walk(sc.value if isinstance(sc, ast.Assign) else sc):
-            if isinstance(c, ast.Call) and isinstance(c.func, ast.Attribute) and c.func.attr in ("split", "rsplit") and c.args and isinstance(c.args[0], ast.Constant):
+            if isinstance(c, ast.Call) and isinstance(c.func, ast.Attribute) and c.func.attr in ("split", "rsplit", "partition", "rpartition") and c.args and isinstance(c.args[0], ast.Constant):
                 seps.add(c.args[0].value)
     return seps
 
@@ -1147,7 +1185,7 @@ OPTION_SEPS = {"element-replacement": {",", ":"}, "shielding": {",", ":"}, "bind
 
 
 def _r4_r6_r7(ctx, pkg):
-    eh = pkg.method("ExampleCommand", "handle")
+    eh = _example_handle(pkg)
     ih = _init_handle(pkg)
     efl = _example_flow(pkg)
     wv = _writer_values(efl)
@@ -1184,6 +1222,20 @@ def _r4_r6_r7(ctx, pkg):
                     if isinstance(c, ast.Call) and isinstance(c.func, ast.Attribute) and c.func.attr == "split" and c.args and isinstance(c.args[0], ast.Constant) and c.args[0].value == ":":
                         n6 += 1
                         maxsplit = len(c.args) > 1 or any(k.arg == "maxsplit" for k in c.keywords)
+                        if not maxsplit and isinstance(n, ast.Assign) and n.value is c and isinstance(n.targets[0], ast.Name):
+                            # `parts = piece.split(":")` bound to a local: what happens to a surplus piece depends on how `parts` is read
+                            pn = n.targets[0].id
+                            uses = [(x, par) for sc_ in _option_scopes(pkg, ih, opt6)[0] for par in ast.walk(sc_) for x in ast.iter_child_nodes(par)
+                                    if isinstance(x, ast.Name) and x.id == pn and isinstance(x.ctx, ast.Load)]
+                            by_index = [par for x, par in uses if isinstance(par, ast.Subscript) and par.value is x and isinstance(par.slice, ast.Constant)]
+                            unpacked = [par for x, par in uses if isinstance(par, ast.Assign) and par.value is x and isinstance(par.targets[0], (ast.Tuple, ast.List))
+                                        and not any(isinstance(e_, ast.Starred) for e_ in par.targets[0].elts)]
+                            if uses and len(unpacked) == len(uses):
+                                ctx.ok("R6", f"--{opt6}: split(':')", (INIT, n.lineno), f"`{pn}` is only unpacked into names: a surplus ':' raises instead of dropping text")
+                                continue
+                            if not by_index:
+                                ctx.unrec("R6", f"--{opt6}: split(':')", (INIT, n.lineno), f"`{ast.unparse(n)[:60]}`: how the pieces are read is not decided here")
+                                continue
                         if not maxsplit and any(isinstance(j, ast.Call) and isinstance(j.func, ast.Attribute) and j.func.attr == "join" and isinstance(j.func.value, ast.Constant)
                                                 and j.func.value.value == ":" for sc_ in _option_scopes(pkg, ih, opt6)[0] for j in ast.walk(sc_)):
                             # the pieces are put together again with ':' somewhere in the parser: whether the tail survives is not read here
@@ -1202,8 +1254,15 @@ def _r4_r6_r7(ctx, pkg):
             if v.func.attr in ("partition", "rpartition"):
                 return ("partition",)
         return None
-    unp = [n for lp in _option_loops(ih, org, "ode-modifier") for n in ast.walk(lp)
-           if isinstance(n, ast.Assign) and isinstance(n.targets[0], ast.Tuple) and colon_cut(n.value) is not None]
+    def _bound(v, lp):
+        """a local bound exactly once in the loop is what it was bound to"""
+        if isinstance(v, ast.Name):
+            src = [x for x in ast.walk(lp) if isinstance(x, ast.Assign) and len(x.targets) == 1 and isinstance(x.targets[0], ast.Name) and x.targets[0].id == v.id]
+            if len(src) == 1:
+                return src[0].value
+        return v
+    unp = [ast.copy_location(ast.Assign(targets=n.targets, value=_bound(n.value, lp)), n) for lp in _option_loops(ih, org, "ode-modifier") for n in ast.walk(lp)
+           if isinstance(n, ast.Assign) and isinstance(n.targets[0], ast.Tuple) and colon_cut(_bound(n.value, lp)) is not None]
     if not unp:
         ctx.unrec("R6", "--ode-modifier: key/value unpacking", (INIT, ih.lineno), "no `key, value = <piece>.split(':')` (or partition) found in the loop over the --ode-modifier occurrences")
     else:
@@ -1211,6 +1270,20 @@ def _r4_r6_r7(ctx, pkg):
         okk = all(len(n.targets[0].elts) == (3 if colon_cut(n.value)[0] == "partition" else 2) and not any(isinstance(e, ast.Starred) for e in n.targets[0].elts) for n in unp)
         ctx.check(okk, "R6", "--ode-modifier: key/value unpacking", (INIT, unp[0].lineno),
                   "`key, value = om.split(':')` raises on a surplus ':' instead of dropping text", found="; ".join(ast.unparse(n)[:60] for n in unp))
+    if not n6:
+        # .. spelled as an unpacking (`idx, expr = rm.split(":", 1)`), a partition, or inside a loop header: still a cut this rule has seen
+        for opt6 in ("ode-modifier", "rate-modifier"):
+            for sc in _option_scopes(pkg, ih, opt6)[0]:
+                for c in ast.walk(sc):
+                    cc = colon_cut(c)
+                    if cc is None:
+                        continue
+                    par = next((x for x in ast.walk(sc) if isinstance(x, ast.Assign) and x.value is c), None)
+                    keeps_tail = cc[0] == "partition" or cc[1]
+                    unpacked = par is not None and isinstance(par.targets[0], (ast.Tuple, ast.List)) and not any(isinstance(e_, ast.Starred) for e_ in par.targets[0].elts)
+                    if keeps_tail or unpacked:
+                        n6 += 1
+                        ctx.ok("R6", f"--{opt6}: cut at ':'", (INIT, c.lineno), "the text after the first ':' is kept whole (maxsplit / partition), or a surplus ':' raises (unpacking)")
     ctx.floor("R6", "free-text splits", n6, 1, (INIT, ih.lineno))
     # R7 the dependency list of an ODE-modifier term is a multiset (`[C C]` is second order in C): nothing that takes the option text
     # apart -- in handle() or in a helper it hands the text to -- identifies equal names (set / dict.fromkeys / a dict or set keyed by them)
@@ -1244,19 +1317,39 @@ def _r4_r6_r7(ctx, pkg):
                 creates.append(n.args[1] if len(n.args) > 1 else n)
         found = "; ".join(ast.unparse(c)[:70] for c in creates)
 
+        def bound_in_loop(v):
+            """a local bound exactly once inside the loop over the occurrences (a new object per pass): the expression it is bound to"""
+            if isinstance(v, ast.Name):
+                asg = [a for a in ast.walk(lp) if isinstance(a, ast.Assign) and len(a.targets) == 1 and isinstance(a.targets[0], ast.Name) and a.targets[0].id == v.id]
+                st_ = [x for x in ast.walk(ih) if isinstance(x, ast.Name) and x.id == v.id and isinstance(x.ctx, ast.Store)]
+                # (a look-up of the entry already there -- `e = D.get(k)` / `e = D[k]` -- binds no new object)
+                made = [a for a in asg if not ((isinstance(a.value, ast.Call) and isinstance(a.value.func, ast.Attribute) and a.value.func.attr == "get" and ast.unparse(a.value.func.value) in D)
+                                               or (isinstance(a.value, ast.Subscript) and ast.unparse(a.value.value) in D))]
+                if len(made) == 1 and len(st_) == len(asg):
+                    return made[0].value
+            return v
+
         def fresh_list(v):
-            return isinstance(v, (ast.List, ast.ListComp)) or (isinstance(v, ast.Call) and isinstance(v.func, ast.Name) and v.func.id == "list")
+            v = bound_in_loop(v)
+            return isinstance(v, (ast.List, ast.ListComp)) or (isinstance(v, ast.Call) and isinstance(v.func, ast.Name) and v.func.id == "list") or \
+                (isinstance(v, ast.Call) and isinstance(v.func, ast.Attribute) and v.func.attr == "split")           # (str.split builds a new list)
 
         def fresh(c):
             """True: a new dict with lists of its own; False: an object that other entries share; None: not decided here"""
-            if isinstance(c, ast.Dict):
-                return all(fresh_list(v) for v in c.values) if all(fresh_list(v) or isinstance(v, (ast.Name, ast.Attribute)) for v in c.values) else None
-            if isinstance(c, ast.Call) and isinstance(c.func, ast.Name) and c.func.id == "dict" and not c.args and c.keywords:
-                return all(fresh_list(k.value) for k in c.keywords) if all(fresh_list(k.value) or isinstance(k.value, (ast.Name, ast.Attribute)) for k in c.keywords) else None
+            c = bound_in_loop(c)
+            def shared(v):
+                """a name / attribute that no statement of the loop binds: one object for every pass"""
+                v = bound_in_loop(v)
+                return isinstance(v, ast.Attribute) or (isinstance(v, ast.Name) and not any(isinstance(x, ast.Name) and x.id == v.id and isinstance(x.ctx, ast.Store) for x in ast.walk(lp)))
+            if isinstance(c, ast.Dict) or (isinstance(c, ast.Call) and isinstance(c.func, ast.Name) and c.func.id == "dict" and not c.args and c.keywords):
+                vals = list(c.values) if isinstance(c, ast.Dict) else [k.value for k in c.keywords]
+                if all(fresh_list(v) for v in vals):
+                    return True
+                return False if any(shared(v) for v in vals) else None
             if isinstance(c, ast.Call) and ast.unparse(c.func) in ("copy.deepcopy", "deepcopy") and len(c.args) == 1:
                 return True
             if isinstance(c, (ast.Name, ast.Attribute)):
-                return False              # the same object for every species
+                return False if shared(c) else None             # the same object for every species / a local of the loop this rule does not follow
             if isinstance(c, ast.Call) and ((isinstance(c.func, ast.Attribute) and c.func.attr == "copy" and not c.args) or ast.unparse(c.func) in ("dict", "copy.copy")):
                 return False              # a shallow copy: the lists inside are shared
             return None
@@ -1327,7 +1420,7 @@ def _r5_example(ctx, pkg, table, allm):
     whatever the case list is spelled as (a literal list, a comprehension over a class-level table, ...) and however solver / device /
     method are derived from the chosen case, every case must end in a method of init.py's table and yield a combination the table allows."""
     from ..consteval import fold, run, NotConstant, class_attr_resolver
-    eh = pkg.method("ExampleCommand", "handle")
+    eh = _example_handle(pkg)
     attr = class_attr_resolver(pkg, "ExampleCommand")
     # by role: the list handed to self.choice(<question>, <list>, ..) -- the same local that `--select` indexes
     lst = next((c.args[1] for c in ast.walk(eh) if isinstance(c, ast.Call) and isinstance(c.func, ast.Attribute) and c.func.attr == "choice" and len(c.args) >= 2), None)
@@ -1576,4 +1669,16 @@ BENIGN = [
         {"file": CONF, "old": 'self._species_kwargs.get("grain_symbol", "GRAIN")', "new": 'lookup("grain_symbol", "GRAIN")'},
         {"file": CONF, "old": 'self._species_kwargs.get("surface_prefix", "#")', "new": 'lookup("surface_prefix", "#")'},
         {"file": CONF, "old": 'self._species_kwargs.get("bulk_prefix", "@")', "new": 'lookup("bulk_prefix", "@")'}]},
+    # hardening wave 4: everyday spellings around the writer, the option parser, the render command and the example command
+    {'name': 'writer-element-table-through-fill-helper', 'edits': [{'file': CONF, 'old': '    @property\n    def content(self) -> str:\n', 'new': '    @staticmethod\n    def _fill(table, values: dict) -> None:\n        for key, value in values.items():\n            table[key] = value\n\n    @property\n    def content(self) -> str:\n'}, {'file': CONF, 'old': '        chem_element["elements"] = self._element\n        chem_element["pseudo_elements"] = self._pseudoelement\n        chem_element["replacement"] = self._replacement\n', 'new': '        self._fill(chem_element, {"elements": self._element, "pseudo_elements": self._pseudoelement, "replacement": self._replacement})\n'}]},
+    {'name': 'writer-copies-lists', 'file': CONF, 'old': '        chem_species["allowed"] = self._allowedspecies\n', 'new': '        chem_species["allowed"] = list(self._allowedspecies)\n'},
+    {'name': 'init-list-option-by-loop', 'file': INIT, 'old': '        heating = [h.strip() for h in heating.split(",") if h]\n', 'new': '        heating_items = []\n        for h in heating.split(","):\n            if h:\n                heating_items.append(h.strip())\n        heating = heating_items\n'},
+    {'name': 'init-list-option-module-helper', 'edits': [{'file': INIT, 'old': 'class InitCommand(', 'new': 'def _split_list(text):\n    return [item.strip() for item in text.split(",") if item]\n\n\nclass InitCommand('}, {'file': INIT, 'old': '        heating = [h.strip() for h in heating.split(",") if h]\n', 'new': '        heating = _split_list(heating)\n'}, {'file': INIT, 'old': '        cooling = [c.strip() for c in cooling.split(",") if c]\n', 'new': '        cooling = _split_list(cooling)\n'}]},
+    {'name': 'init-settings-collected-in-a-dict', 'edits': [{'file': INIT, 'old': '            solver=solver,\n            device=device,\n            method=method,\n        )\n', 'new': '            **solver_settings,\n        )\n'}, {'file': INIT, 'old': '        config = BaseConfiguration(\n', 'new': '        solver_settings = dict(solver=solver, device=device, method=method)\n        config = BaseConfiguration(\n'}]},
+    {'name': 'render-network-keywords-in-a-dict', 'file': RENDER, 'old': '        net = Network(\n            filelist=files,\n            fileformats=formats,\n            elements=element,\n            pseudo_elements=pseudo_element,\n            allowed_species=allowed_species,\n            required_species=extra_species,\n            species_kwargs=species_kwargs,\n            grain_model=grain_model,\n            heating=heating,\n            cooling=cooling,\n            shielding=shielding,\n            rate_modifier=rate_modifier,\n            ode_modifier=ode_modifier,\n        )\n', 'new': '        network_kwargs = dict(\n            filelist=files,\n            fileformats=formats,\n            elements=element,\n            pseudo_elements=pseudo_element,\n            allowed_species=allowed_species,\n            required_species=extra_species,\n            species_kwargs=species_kwargs,\n            grain_model=grain_model,\n            heating=heating,\n            cooling=cooling,\n            shielding=shielding,\n            rate_modifier=rate_modifier,\n            ode_modifier=ode_modifier,\n        )\n        net = Network(**network_kwargs)\n'},
+    {'name': 'render-tables-read-with-get', 'file': RENDER, 'old': '        heating = chem_thermal["heating"]\n        cooling = chem_thermal["cooling"]\n', 'new': '        heating = chem_thermal.get("heating")\n        cooling = chem_thermal.get("cooling")\n'},
+    {'name': 'render-installs-tables-in-a-helper', 'edits': [{'file': RENDER, 'old': '        Species._replacement = replacement\n        Species.set_known_elements(element)\n        Species.set_known_pseudoelements(pseudo_element)\n', 'new': '        self._install_species_tables(replacement, element, pseudo_element)\n'}, {'file': RENDER, 'old': '    def handle(self):\n', 'new': '    @staticmethod\n    def _install_species_tables(replacement, element, pseudo_element):\n        from naunet.species import Species\n\n        Species._replacement = replacement\n        Species.set_known_elements(element)\n        Species.set_known_pseudoelements(pseudo_element)\n\n    def handle(self):\n'}]},
+    {'name': 'example-binding-pieces-by-loop', 'file': EXAMPLE, 'old': '        bindingstr = ",".join(f"{s}={sv}" for s, sv in binding.items())\n', 'new': '        bindingparts = []\n        for s, sv in binding.items():\n            bindingparts.append(f"{s}={sv}")\n        bindingstr = ",".join(bindingparts)\n'},
+    {'name': 'example-separator-constant', 'edits': [{'file': EXAMPLE, 'old': 'class ExampleCommand(', 'new': 'ITEM_SEP = ","\n\n\nclass ExampleCommand('}, {'file': EXAMPLE, 'old': '        bindingstr = ",".join(f"{s}={sv}" for s, sv in binding.items())\n', 'new': '        bindingstr = ITEM_SEP.join(f"{s}={sv}" for s, sv in binding.items())\n'}]},
+    {'name': 'init-ode-split-bound-then-unpacked', 'file': INIT, 'old': '                key, value = om.split(":")\n', 'new': '                pieces = om.split(":")\n                key, value = pieces\n'},
 ]
